@@ -1,5 +1,6 @@
 import PartituraModel.Wire
 import PartituraModel.Model.PerfMidi
+import PartituraModel.Model.PerfMidiRegen
 
 open Wire Model Model.PerfMidi
 
@@ -93,12 +94,16 @@ def fmtOptNat : Option Nat → String
   | some n => fmtNat n
 
 /-- integer view of the loaded parts; every note, control and program carries the track number
-    `sanitize_track_numbers` gives it (`nums`: notes first, then controls, then programs) -/
-def fmtPartInt (pn : RTrack × List (Option Nat)) : String :=
+    `sanitize_track_numbers` gives it (`nums`: notes first, then controls, then programs), every time signature,
+    key signature and other meta event the one of `loadMetaNumbers` (`ms`, in that order; fixes/C06-7) -/
+def fmtPartInt (pn : RTrack × List (Option Nat) × List Int) : String :=
   let p := pn.1
-  let nn := pn.2.take p.notes.length
-  let nc := (pn.2.drop p.notes.length).take p.controls.length
-  let np := pn.2.drop (p.notes.length + p.controls.length)
+  let nn := pn.2.1.take p.notes.length
+  let nc := (pn.2.1.drop p.notes.length).take p.controls.length
+  let np := pn.2.1.drop (p.notes.length + p.controls.length)
+  let mt := pn.2.2.take p.timeSigs.length
+  let mk := (pn.2.2.drop p.timeSigs.length).take p.keySigs.length
+  let mm := pn.2.2.drop (p.timeSigs.length + p.keySigs.length)
   fmtTuple [
     fmtNat p.fileTrack,
     fmtList (fun (n : (RNote × Nat) × Option Nat) => fmtTuple [fmtNat n.1.2, fmtNat n.1.1.pitch, fmtInt n.1.1.on,
@@ -106,9 +111,9 @@ def fmtPartInt (pn : RTrack × List (Option Nat)) : String :=
     fmtList (fun c => fmtTuple [fmtInt c.1.1, fmtNat c.1.2.1, fmtNat c.1.2.2.1, fmtNat c.1.2.2.2, fmtOptNat c.2])
       (p.controls.zip nc),
     fmtList (fun c => fmtTuple [fmtInt c.1.1, fmtNat c.1.2.1, fmtNat c.1.2.2, fmtOptNat c.2]) (p.programs.zip np),
-    fmtList (fun c => fmtTuple [fmtInt c.1, fmtNat c.2.1, fmtNat c.2.2, fmtNat p.fileTrack]) p.timeSigs,
-    fmtList (fun c => fmtTuple [fmtInt c.1, fmtInt c.2.1, fmtBool c.2.2, fmtNat p.fileTrack]) p.keySigs,
-    fmtList (fun c => fmtTuple [fmtInt c.1, fmtOptNat c.2, fmtNat p.fileTrack]) p.metas]
+    fmtList (fun c => fmtTuple [fmtInt c.1.1, fmtNat c.1.2.1, fmtNat c.1.2.2, fmtInt c.2]) (p.timeSigs.zip mt),
+    fmtList (fun c => fmtTuple [fmtInt c.1.1, fmtInt c.1.2.1, fmtBool c.1.2.2, fmtInt c.2]) (p.keySigs.zip mk),
+    fmtList (fun c => fmtTuple [fmtInt c.1.1, fmtOptNat c.1.2, fmtInt c.2]) (p.metas.zip mm)]
 
 /-- the loaded parts in seconds, numbered by `sanitize_track_numbers` (`none` if a part got no number) -/
 def sparts (ppq d : Nat) (m : Bool) (tracks : List Track) : Option (List SPart) :=
@@ -154,7 +159,7 @@ def handle (ts : List String) : String :=
     orErr <| (run pLoad rest).bind fun (ppq, _, m, tracks) =>
       if ppq = 0 then none else
       let kept := loadFile m tracks
-      some (fmtList fmtPartInt (kept.zip (loadNumbers kept)))
+      some (fmtList fmtPartInt (kept.zip ((loadNumbers kept).zip (loadMetaNumbers kept))))
   | "loadt" :: rest =>
     orErr <| (run pLoad rest).bind fun (ppq, d, m, tracks) =>
       if ppq = 0 then none else
@@ -185,6 +190,19 @@ def handle (ts : List String) : String :=
   | "san" :: rest =>
     orErr <| (run (list (list int)) rest).map fun parts =>
       fmtList (fmtList (fmtOpt fmtNat)) (sanitize parts)
+  | "sanm" :: rest =>
+    -- sanm parts, each: tracks of notes/controls/programs, tracks of key/time signatures and other meta
+    orErr <| (run (list (do let a ← list int; let b ← list int; pure (a, b))) rest).map fun parts =>
+      fmtList (fmtList fmtInt) (sanitizeMeta parts)
+  | "regen" :: rest =>
+    -- regen ppq1 d ml fnz one ppq2 mpq2 ms tracks -> (type,[tracks in delta times]) of the second file
+    orErr <| (run (do let ppq1 ← nat; let d ← nat; let ml ← bool; let fnz ← bool; let one ← bool
+                      let ppq2 ← nat; let mpq2 ← nat; let ms ← bool; let ts ← list (list pTMsg)
+                      pure (ppq1, d, ml, fnz, one, ppq2, mpq2, ms, ts)) rest).bind
+      fun (ppq1, d, ml, fnz, one, ppq2, mpq2, ms, ts) =>
+        if ppq1 = 0 || mpq2 = 0 then none else
+        (regen (quant mpq2 ppq2) ppq1 d ml fnz one ts mpq2 ms).map fun r =>
+          fmtTuple [fmtNat r.1, fmtList fmtTrack r.2]
   | _ => "bad-request"
 
 def main : IO Unit := mainLoop handle
